@@ -210,7 +210,9 @@ def run(tier):
     import mc_dag
 
     mc_dag.run_mc(chk, quick, which="C06")
-    dates = ["2023-01-01"] + rnd.sample([d for d in DATES if d != "2023-01-01"], 1 if quick else len(DATES) - 1)
+    from c04 import dates_for
+
+    dates = dates_for(rnd, quick, 1, lo="2009-01-01", nreg=1)     # incl. a regime date (thorough: all) so that dated rule versions take part
     groups = list(INTERNAL_PARAMS_GROUPS)
     jobs = []
     t = 0
